@@ -62,6 +62,8 @@ m6  checkRuleHashes first comparison: `h == hashStr` -> strings.EqualFold       
     24 disagreements
 m7  buildTarget: storeInCache moved before calculateAndCheckRuleHash                     exit 1: VIOLATION failed-output-stored-in-cache, 25 disagreements
 h1  harmless: locals renamed in UnprefixedHashes and checkRuleHashes, independent statements reordered   exit 0, facts identical
+m12 (after /repo fix 656076b) UnprefixedHashes back to `hashes := target.Hashes[:]`: fact unprefixAliases=true, FactsOK false; the in-process
+    oracle class unprefixed-hashes-rewrites-declared-list names the input (facts-only + oracle by construction, not dry-run end to end).
 facts-only (extractor run on the mutated copy, FactsOK no longer true): m8 `combine := len(outputs) > 1`, m9 file names always written
     in outputHash, m10 writeRuleHash before checkRuleHashes, m11 TrimSpace dropped.
 """
